@@ -19,11 +19,14 @@
  *         w<n>   peer writes n bytes     g<n> peer sends n bytes + one descriptor (SCM_RIGHTS)
  *         h      peer shutdown(SHUT_WR)  q    peer close
  *         u<n>   n bytes are put into the peer's receive queue (so that q resets the connection)
+ *         V      uv_write of 16 MiB that the peer never reads: POLLOUT stays requested, the handle is
+ *                polled also while not reading; q then resets (unread data at the peer)
  *   beh:  S<tok> T C   inside the k-th read callback
  *   allocs: <len> | n<len> (base NULL), k-th alloc callback, cyclically
  * output: <trace> ; <oracle log>
  *   trace tokens (ocaml/drv_c06.ml prints the same, except the upper-case
- *   harness-only tokens W<total> G<total> H Q U K M B<n>;
+ *   harness-only tokens W<total> G<total> H Q U K M B<n> V<ret> Y<status> O<0/1>;
+ *   O = POLLOUT requested when epoll_pwait was called, V = uv_write returned, Y = write_cb status,
  *   G = that write carried a descriptor, B<n> = n bytes were still readable at this UV_EOF):
  *   P<raw>  A<id>,<suggested>,<base>,<len>  k<len>:<ans>@<off>  r<tok>:<nread>:<buf>:<off>,<len>
  *   s<ret> t<ret> c0  x  f<readable><active><closing>
@@ -34,6 +37,7 @@
 #include <errno.h>
 #include <unistd.h>
 #include <fcntl.h>
+#include <poll.h>
 #include <signal.h>
 #include <sys/socket.h>
 #include <sys/epoll.h>
@@ -130,6 +134,7 @@ int __wrap_epoll_pwait(int epfd, struct epoll_event* ev, int max, int timeout, c
   if (!g_active || epfd != loop.backend_fd) return __real_epoll_pwait(epfd, ev, max, timeout, ss);
   n = __real_epoll_pwait(epfd, ev, max, 0, ss);
   if (n < 0) n = 0;
+  if (!g_quiet) printf("O%d ", (!g_closing && (h.stream.io_watcher.pevents & POLLOUT)) ? 1 : 0);
   if (g_closing) { if (!g_quiet) printf("P0 "); return n; }
   for (i = 0; i < n; i++) if (ev[i].data.fd == g_fd) { at = i; real = ev[i].events; }
   given = real;
@@ -206,6 +211,11 @@ static void rcb2(uv_stream_t* s, ssize_t n, const uv_buf_t* b) { on_read(2, s, n
 static void rcb3(uv_stream_t* s, ssize_t n, const uv_buf_t* b) { on_read(3, s, n, b); }
 static uv_read_cb rcbs[] = { rcb1, rcb1, rcb2, rcb3 };
 
+#define NWR 16
+#define BIGW (16u << 20)
+static uv_write_t wreqs[NWR]; static int nwr; static char* bigbuf;
+static void write_cb(uv_write_t* req, int status) { (void) req; if (!g_quiet) printf("Y%d ", status); }
+
 static void close_cb(uv_handle_t* hd) { (void) hd; if (!g_quiet) printf("x "); }
 static void prep_cb(uv_prepare_t* p) { (void) p; }
 
@@ -254,6 +264,16 @@ static void do_ops(char* ops, int in_cb) {
       if (in_cb) { model_op = 0; break; }
       ov_kind = tok[1]; ov_mask = ov_kind ? (unsigned) strtoul(tok + 2, NULL, 10) : 0;
       uv_run(&loop, UV_RUN_NOWAIT);
+      break;
+    case 'V': model_op = 0;
+      if (!in_cb && !g_closing && nwr < NWR) {
+        uv_buf_t b;
+        if (!bigbuf) bigbuf = calloc(1, BIGW);
+        b = uv_buf_init(bigbuf, BIGW);
+        r = uv_write(&wreqs[nwr], &h.stream, &b, 1, write_cb);
+        if (r == 0) nwr++;
+        printf("V%d ", r);
+      }
       break;
     case 'w': model_op = 0; if (!in_cb) peer_write(strtoul(tok + 1, NULL, 10), 0); break;
     case 'g': model_op = 0; if (!in_cb) peer_write(strtoul(tok + 1, NULL, 10), 1); break;
@@ -320,7 +340,7 @@ static void run_case(char* line) {
       script[nscript++] = t;
     } }
   olog = open_memstream(&olog_buf, &olog_len);
-  g_quiet = 0; g_closing = 0; peer_written = 0; kpos = 0; delivered = 0; out.live = 0; out.base = NULL; ov_kind = 0;
+  g_quiet = 0; g_closing = 0; nwr = 0; peer_written = 0; kpos = 0; delivered = 0; out.live = 0; out.base = NULL; ov_kind = 0;
 
   if (make_pair(fds)) { printf("nosocket ; \n"); return; }
   g_fd = fds[0]; g_peer = fds[1];
